@@ -107,6 +107,7 @@ pub fn run_check(prop: &str, tier: Tier, seed: u64, runs: Option<u64>, workers: 
         deadline: Some(start + if tier == Tier::Quick { Duration::from_secs(240) } else { Duration::from_secs(3 * 3600) }),
         keep_per_seed: false,
         directed: directed.len(),
+        known: load_findings().findings.iter().filter(|f| f.status == "known" && f.property == prop).map(|f| f.signature.clone()).collect(),
     };
     println!(
         "sim: property={} tier={:?} VERIF_SEED={} runs={} (+{} directed) workers={}",
